@@ -993,14 +993,14 @@ def _op_term_with(op, rec):
         return f"(List_ {cnat(rec.get('dead', 0))})", err
     if k == "fetch_active":
         body = K._body_calls(rec)
-        cs = K.c_calls(body)
+        cs = K.c_body_rp(rec)
         if own_fail:
-            cs = cs[:-1] + ("; " if body else "") + PY_FAIL + "]"
+            cs = cs[:-1] + ("; " if cs != "[]" else "") + PY_FAIL + "]"
             err = "(Some EFail)"
         return f"(FetchActive {K.MODES[op['mode']]} {cs})", err
     cs = K.c_calls_rp(rec, calls)
     if own_fail:
-        cs = cs[:-1] + ("; " if calls else "") + PY_FAIL + "]"
+        cs = cs[:-1] + ("; " if cs != "[]" else "") + PY_FAIL + "]"
         err = "(Some EFail)"
     return f"(Calls {cs})", err
 
